@@ -165,6 +165,21 @@ CLAIMED["C17"] = (
     "DESIGN.md section 6, C17",
 )
 
+CLAIMED["C20"] = (
+    "Coq theorems: a value list of the wrong length is rejected, a single value never; the result is a grid over the "
+    "template's time x frequency coordinates; later geometries overwrite earlier ones and untouched cells hold the fill value "
+    "(fold over the geometry list); for a rectangle in bin-index space the centre rule is decided exactly, and for a bounding "
+    "box whose corners map (get_coord_index, clamped) to bins (i0,j0)-(i1,j1) a cell is set iff i0 <= i < i1 and j0 <= j < j1. "
+    "The model has no notion of dimension order / extra dimensions / contents; the correspondence runs both orders, extra "
+    "channel dimension, random contents, dtypes, and compares every cell the model decides (general polygons by exact "
+    "even-odd crossing in Q; on-edge centres and cells near zero-area shapes undecided). PARTIAL for non-rectangular "
+    "polygons and all_touched (GDAL contract).",
+    "Trusted: Coq kernel/vm_compute; GDAL polygon fill assumed to be the centre rule (differentially checked on decided "
+    "cells); all_touched only checked as superset; zero-area shapes: GDAL line burning not modelled (known finding).",
+    "Rocq/Coq proof over Q/Z + model/implementation correspondence by vm_compute (general polygons: exact point-in-polygon model)",
+    "DESIGN.md section 6, C20",
+)
+
 NOT_YET = {}
 
 
